@@ -90,6 +90,54 @@ func isSubscriptionCtx(v ssa.Value, outer *ssa.Function) bool {
 					}
 				}
 			}
+		case *ssa.UnOp:
+			// a context kept in a field of an object that `outer` builds from its own context (the goroutine is a
+			// method of that object: `go l.stopWhenDone()` reading l.ctx)
+			if x.Parent() == outer {
+				continue
+			}
+			_, sn, fld, isF := an.FieldOf(x.X)
+			if !isF || an.NamedTypeName(x.Type()) != "context.Context" {
+				continue
+			}
+			found := false
+			an.Instrs(outer, func(in ssa.Instruction) {
+				st, isSt := in.(*ssa.Store)
+				if !isSt {
+					return
+				}
+				if _, sn2, fld2, isF2 := an.FieldOf(st.Addr); isF2 && sn2 == sn && fld2 == fld && isSubscriptionCtx(st.Val, outer) {
+					found = true
+				}
+			})
+			if found {
+				return true
+			}
+		}
+	}
+	return false
+}
+
+// isAliveEdge: the edge is taken when a listener's context has not ended (`l.alive()` or `l.ctx.Err() == nil`).
+func isAliveEdge(e an.CondEdge) bool {
+	if call, isC := e.If.Cond.(*ssa.Call); isC && strings.HasSuffix(an.CalleeName(call), "listener).alive") {
+		return e.Branch
+	}
+	x, trueMeansNil, ok := an.NilTest(e.If.Cond)
+	if !ok || e.Branch != trueMeansNil {
+		return false
+	}
+	for _, s := range an.Sources(x) {
+		call, isC := s.(*ssa.Call)
+		if !isC || !call.Call.IsInvoke() || call.Call.Method.Name() != "Err" {
+			continue
+		}
+		for _, r := range an.Sources(call.Call.Value) {
+			if u, isU := r.(*ssa.UnOp); isU {
+				if _, sn, fld, isF := an.FieldOf(u.X); isF && fld == "ctx" && strings.HasSuffix(sn, "minibus.listener") {
+					return true
+				}
+			}
 		}
 	}
 	return false
@@ -348,7 +396,7 @@ func r105(c *an.Ctx) {
 					return
 				}
 				for _, e := range an.GuardingEdges(in) {
-					if call, isC := e.If.Cond.(*ssa.Call); isC && strings.HasSuffix(an.CalleeName(call), "listener).alive") && e.Branch {
+					if isAliveEdge(e) {
 						okc = true
 					}
 				}
